@@ -97,7 +97,12 @@ var c18Templates = map[string]string{
 	"dblext3.txt":  "{% extends 'a.html' %}{% extends 'a.html' %}",
 	// top-level assignments (also run without any context map)
 	"toplevel.txt": "{% set v = 'own' %}{{ v }}[{{ leak }}]{% set leak = 'L' ~ x %}{% import 'macros.twig' as mm %}{{ mm.wrap(leak) }}",
-	"tests.txt":    "{{ 4 is pos }}{{ 0 is not pos }}{% for i in items if i %}{{ loop.index }}{{ i }}{% else %}none{% endfor %}",
+	// six templates deep, so that 64 callers hold several hundred includes open at the same time
+	"deep6.txt": "6({% include 'deep5.txt' %})", "deep5.txt": "5({% include 'deep4.txt' %})", "deep4.txt": "4({% include 'deep3.txt' %})",
+	"deep3.txt": "3({% include 'deep2.txt' %})", "deep2.txt": "2({% include 'deep1.txt' %})", "deep1.txt": "1({{ meet() }}{% for i in 1..3 %}{{ x }}{% endfor %})",
+	// explicit escape strategies, registered and not: first uses happen concurrently on the fresh shared environments
+	"strategies.html": "{{ x|escape('xml') }}{{ x|e('svg') }}{{ x|escape('js') }}{{ x|escape('nope') }}{{ x|escape('txt') }}{{ x|e }}",
+	"tests.txt":       "{{ 4 is pos }}{{ 0 is not pos }}{% for i in items if i %}{{ loop.index }}{{ i }}{% else %}none{% endfor %}",
 }
 
 // c18Shared / c18SharedMap are read-only values that every context refers to (the same Go slice, with spare
@@ -171,6 +176,14 @@ func c18NewEnvs() (*stick.Env, *stick.Env) {
 	co := stick.New(&stick.MemoryLoader{Templates: c18All})
 	for _, e := range []*stick.Env{tw, co} {
 		e.Functions["pure"] = func(ctx stick.Context, args ...stick.Value) stick.Value { return "pure:" + ctx.Name() }
+		// meet() holds a caller at the bottom of the include chain until every caller of the round has got there
+		// (or two seconds have passed), so that all of them are as deep as they get at the same moment
+		e.Functions["meet"] = func(ctx stick.Context, args ...stick.Value) stick.Value {
+			if b, _ := c18meet.Load().(*c18barrier); b != nil {
+				b.arrive()
+			}
+			return ""
+		}
 		e.Tests["pos"] = func(ctx stick.Context, v stick.Value, args ...stick.Value) bool { return stick.CoerceNumber(v) > 0 }
 	}
 	for n, f := range tw.Filters {
@@ -242,6 +255,29 @@ func c18doErr(env *stick.Env, op int, name string, ctx map[string]stick.Value) (
 	}()
 	return e, errObj
 }
+
+// c18barrier lets the callers of one round wait for each other (race-free: a counter under a mutex and a channel).
+type c18barrier struct {
+	mu      sync.Mutex
+	want    int
+	arrived int
+	open    chan struct{}
+}
+
+func (b *c18barrier) arrive() {
+	b.mu.Lock()
+	b.arrived++
+	if b.arrived == b.want {
+		close(b.open)
+	}
+	b.mu.Unlock()
+	select {
+	case <-b.open:
+	case <-time.After(2 * time.Second):
+	}
+}
+
+var c18meet atomic.Value // *c18barrier of the round in progress, or a nil *c18barrier
 
 // event log of the plain build
 var (
@@ -348,6 +384,11 @@ func (p *c18) Run(i int) (res fw.Result) {
 		c18mu.Unlock()
 		atomic.StoreInt64(&c18maxLive, 0)
 	}
+	if i%8 >= 6 {
+		c18meet.Store(&c18barrier{want: rd.goroutines, open: make(chan struct{})})
+	} else {
+		c18meet.Store((*c18barrier)(nil))
+	}
 	start := make(chan struct{})
 	var wg sync.WaitGroup
 	results := make([][]c18mismatch, rd.goroutines)
@@ -365,6 +406,13 @@ func (p *c18) Run(i int) (res fw.Result) {
 			calls := make([]call, rd.calls)
 			for k := range calls {
 				calls[k] = call{ei: r.Intn(4) / 3, op: r.Intn(4) / 3, ci: r.Intn(len(c18Ctx) + 1), name: p.names[r.Intn(len(p.names))]}
+				if i%8 >= 6 {
+					// every caller of this round renders the six-deep include chain (or, first, the explicit strategies)
+					calls[k].name, calls[k].op = "deep6.txt", 0
+					if k == 0 {
+						calls[k].name = "strategies.html"
+					}
+				}
 			}
 			<-start
 			for _, c := range calls {
@@ -444,7 +492,7 @@ func (p *c18) Run(i int) (res fw.Result) {
 }
 
 func (p *c18) Rule() string {
-	return fmt.Sprintf("rounds: N in {2,4,16,64} goroutines released by one barrier, each doing 3..6 calls decided beforehand (Execute or Parse, Twig or core environment, one of %d hand-written templates and 10 (quick) / 24 (thorough) generated multi-template programs (every tag and operator, inheritance chains, include/embed/use/import; own name prefix each), mixing .html/.js/.css/.txt/no extension/unknown extension, blocks, inheritance, include and embed of another content type, macros, imports, filter sections, captures, a syntax error, run-time errors (also after partial output inside a filter section, a capture, a macro, a block and an include), filters building new values from a slice (with spare capacity) and a map that ALL contexts share; 4 contexts and no context at all) with its own context map and buffer, on ONE shared twig.New and ONE shared stick.New environment per worker process; GOMAXPROCS in {1,2,16}. Even rounds run in -race workers (traverse hook = bare Gosched at module/block/body/print nodes, no monitor-side synchronisation); odd rounds in plain workers (hook = seeded yields and micro-sleeps, global module-enter event log). Oracles: (1) the race detector's log (halt_on_error=0, log_path) parsed by the driver: every report with a library frame is a violation, deduplicated by the set of library functions involved; (2) every concurrent result (output and error text, or the parsed tree's String()) equals the result of the same call on a fresh identically configured environment run alone; (3) no panic in any goroutine; (4) the shared context values are unchanged after every round, spare capacity included; (5) every error value a call returned still reads the same after all other calls of the round have finished. Non-trivial = plain-build round in which >=2 calls were in flight at once; distinct = (N, hash of the global order of module-enter events).", len(c18Templates))
+	return fmt.Sprintf("rounds: N in {2,4,16,64} goroutines released by one barrier, each doing 3..6 calls decided beforehand (Execute or Parse, Twig or core environment, one of %d hand-written templates and 10 (quick) / 24 (thorough) generated multi-template programs (every tag and operator, inheritance chains, include/embed/use/import; own name prefix each), mixing .html/.js/.css/.txt/no extension/unknown extension, blocks, inheritance, include and embed of another content type, macros, imports, filter sections, captures, a six-deep include chain (in a quarter of the rounds - those with 64 goroutines - every caller renders it and a race-free meet() function at the bottom holds each until all have arrived, so that 64 callers have 384 includes open at the same moment), explicit escape strategies incl. unregistered ones, a syntax error, run-time errors (also after partial output inside a filter section, a capture, a macro, a block and an include), filters building new values from a slice (with spare capacity) and a map that ALL contexts share; 4 contexts and no context at all) with its own context map and buffer, on ONE shared twig.New and ONE shared stick.New environment per worker process; GOMAXPROCS in {1,2,16}. Even rounds run in -race workers (traverse hook = bare Gosched at module/block/body/print nodes, no monitor-side synchronisation); odd rounds in plain workers (hook = seeded yields and micro-sleeps, global module-enter event log). Oracles: (1) the race detector's log (halt_on_error=0, log_path) parsed by the driver: every report with a library frame is a violation, deduplicated by the set of library functions involved; (2) every concurrent result (output and error text, or the parsed tree's String()) equals the result of the same call on a fresh identically configured environment run alone; (3) no panic in any goroutine; (4) the shared context values are unchanged after every round, spare capacity included; (5) every error value a call returned still reads the same after all other calls of the round have finished. Non-trivial = plain-build round in which >=2 calls were in flight at once; distinct = (N, hash of the global order of module-enter events).", len(c18Templates))
 }
 
 func (p *c18) Assumptions() []string {
